@@ -163,6 +163,63 @@ def check_effects(run, facts, cfgname, allow_ambient=True):
             for f in v["fields"]:
                 if facts.ty(f["ty"])["k"] == "fnptr":
                     cap_fnptr.add(facts.ty_canon(f["ty"]))
+    # crate-internal dispatch types: a fn-pointer type that occurs in no signature or field nameable from outside
+    # and whose every value is made, somewhere in the crate, by coercing a crate function or closure — calling
+    # through it is calling one of those crate functions (`let f = if ext { parse_a } else { parse_b }`)
+    def mentions(tid, ts, seen=None):
+        seen = seen if seen is not None else set()
+        if tid in seen or not isinstance(tid, int):
+            return False
+        seen.add(tid)
+        t_ = facts.ty(tid)
+        if t_["k"] == "fnptr" and facts.ty_canon(tid) == ts:
+            return True
+        for key in ("to", "elem", "output"):
+            if isinstance(t_.get(key), int) and mentions(t_[key], ts, seen):
+                return True
+        for key in ("elems", "inputs", "upvars"):
+            for x in t_.get(key) or []:
+                if isinstance(x, int) and mentions(x, ts, seen):
+                    return True
+        for a_ in t_.get("args") or []:
+            if isinstance(a_, dict) and "t" in a_ and mentions(a_["t"], ts, seen):
+                return True
+        return False
+
+    internal_cache = {}
+    local_keys = {b_["key"] for b_ in facts.bodies} | {i_["key"] for i_ in facts.instances}
+
+    def internal_dispatch(ts):
+        if ts in internal_cache:
+            return internal_cache[ts]
+        ok_ = True
+        for it in facts.d["items"]:
+            if it.get("reachable") and (any(mentions(x, ts) for x in it.get("inputs") or []) or mentions(it.get("output"), ts)):
+                ok_ = False
+        for a_ in facts.adts:
+            if a_["reachable"]:
+                for v_ in a_["variants"]:
+                    for f_ in v_["fields"]:
+                        if mentions(f_["ty"], ts):
+                            ok_ = False
+        n_src = 0
+        if ok_:
+            for inst_ in facts.instances:
+                for b_ in inst_["body"]["blocks"]:
+                    for st_ in b_["stmts"]:
+                        if st_["k"] == "assign" and st_["rv"]["k"] == "cast" and "FnPointer" in str(st_["rv"].get("ck", "")) and isinstance(st_["rv"].get("to"), int) and facts.ty_canon(st_["rv"]["to"]) == ts:
+                            op_ = st_["rv"]["op"]
+                            tgt_ = st_["rv"].get("target")
+                            src_local = isinstance(tgt_, dict) and bool(tgt_.get("local"))
+                            pl_ = op_.get("c") or op_.get("m")
+                            src_closure = "ClosureFnPointer" in str(st_["rv"].get("ck", "")) and pl_ is not None and facts.ty(inst_["body"]["locals"][pl_["l"]]["ty"])["k"] == "closure"
+                            if src_local or src_closure:
+                                n_src += 1
+                            else:
+                                ok_ = False
+        internal_cache[ts] = ok_ and n_src >= 1
+        return internal_cache[ts]
+
     seen_keys = set()
     for owner, blk, t in iter_calls(facts):
         n_calls += 1
@@ -171,7 +228,7 @@ def check_effects(run, facts, cfgname, allow_ambient=True):
         if f["k"] == "ptr":
             n_fnptr += 1
             ts = facts.ty_canon(f["ty"])
-            ok = ts in cap_fnptr
+            ok = ts in cap_fnptr or internal_dispatch(ts)
             run.obligation(ok)
             key = "%s|fnptr-call|%s|%s" % (cfgname, norm_name(strip_closure(owner)), ts)
             if not ok and key not in seen_keys:
